@@ -211,13 +211,17 @@ CHECKS = {
                 "keep path implying right<=W, top<=H on all orderings; the "
                 "stored id is |x[i]|; the bin counter protocol (start 1, "
                 "step 1, each new value stored, returned); the packing "
-                "dtype covers H+h and n_items.",
+                "dtype covers H+h and n_items; every move keeps the moved "
+                "box disjoint from every box it was disjoint from.",
         "design_ref": "DESIGN.md section 4, C01",
-        "note": "PARTIAL: non-overlap of placed rectangles is NOT decided "
-                "(needs an inductive geometric invariant - outside this "
-                "family); a changed collision comparison is reported under "
-                "C14's rule equivalence instead. Bin ids within 1..n_items "
-                "are decided under C13.",
+        "note": "Non-overlap is decided through a pairwise move lemma "
+                "(Fourier-Motzkin over every leaf/path/disjointness case of "
+                "each move kernel) plus checked initial positions; the "
+                "inductive composition (drop above the bin, moves preserve "
+                "disjointness, window = all boxes of the bin per C14, fresh "
+                "bin on reset) is argued in the evidence text and not "
+                "machine-checked. Bin ids within 1..n_items are decided "
+                "under C13.",
         "technique": "exhaustive weak-ordering enumeration + symbolic "
                      "normal forms (polynomial identities) + structural "
                      "protocol rules",
